@@ -33,6 +33,7 @@ class Case:
     meta: Dict[str, Any] = field(default_factory=dict)
     validate: int = 2  # number of seeded concrete valuations for the symbolic-vs-native differential run
     core: bool = True
+    cex_grace: int = 400  # paths explored after the first counterexample (large where known findings exist: keep exploring)
 
     def __post_init__(self):
         if self.key is None:
@@ -118,7 +119,7 @@ def run_case(i: int) -> Dict[str, Any]:
     out: Dict[str, Any] = dict(index=i, name=case.name, key=case.key, meta=case.meta)
     t0 = time.time()
     try:
-        r = symx.explore(case.fn, max_paths=case.max_paths, timeout=case.timeout, reset=case.reset)
+        r = symx.explore(case.fn, max_paths=case.max_paths, timeout=case.timeout, reset=case.reset, cex_grace_paths=case.cex_grace)
     except symx.SymxError as e:
         out.update(status="error", error="%s: %s" % (type(e).__name__, e), trace=traceback.format_exc()[-1500:])
         out["wall_s"] = time.time() - t0
